@@ -113,8 +113,7 @@ func stat(v reflect.Value, depth int, maxItem int, opt Opt) []string {
 		}
 
 	case reflect.Ptr:
-		p := (*[]byte)(unsafe.Pointer(v.Pointer()))
-		if p != nil {
+		if !v.IsNil() {
 			lines = append(lines, stat(v.Elem(), depth, maxItem, opt)...)
 		}
 	case reflect.Interface:
@@ -164,8 +163,7 @@ func sizeof(v reflect.Value) int {
 		}
 
 	case reflect.Ptr:
-		p := (*[]byte)(unsafe.Pointer(v.Pointer()))
-		if p == nil {
+		if v.IsNil() {
 			sum = 0
 		} else {
 			sum = sizeof(v.Elem())
